@@ -645,6 +645,16 @@ class Body:
         node, value = self.expr(i, j)
         return node, value
 
+    def has_ret(self, n):
+        """a `ret` that would leave this loop's function (not caught by a scope inside `n`)"""
+        if n == ("ret",):
+            return True
+        if n[0] in ("seq", "alt"):
+            return any(self.has_ret(x) for x in n[1])
+        if n[0] == "loop":
+            return self.has_ret(n[1])
+        return False
+
     def nested_loop(self, b, k):
         """a `break`/`continue` inside a nested loop of [b,k) would refer to that loop"""
         for q in range(b + 1, k):
@@ -741,11 +751,25 @@ class Body:
             hdr, _ = self.scan(i + 1, b)
             body, _, _ = self.block(b)
             if has_effect(body) or has_effect(hdr):
-                kinds = set(self.val(q) for q in range(b, k) if self.val(q) in ("break", "continue", "return", "?"))
+                # exits of THIS loop: `break` / `continue` tokens outside nested loop bodies (those of a nested loop were
+                # resolved when that loop was parsed); a `return` / `?` anywhere inside leaves the function
+                kinds = set()
+                q = b + 1
+                while q < k:
+                    w = self.val(q)
+                    if w in ("for", "while", "loop"):
+                        e = self.find_brace(q + 1, k)
+                        q = _match(self.t, e, "{", "}") + 1
+                        continue
+                    if w in ("break", "continue"):
+                        kinds.add(w)
+                    q += 1
+                if self.has_ret(body):
+                    kinds.add("return")
                 # a `break` leaves the loop like a `ret` leaves a scope; a `continue` leaves one iteration.
                 # Only one kind of non-local exit per loop is expressible.
                 if "break" in kinds or "continue" in kinds:
-                    if len(kinds) > 1 or self.nested_loop(b, k):
+                    if len(kinds) > 1:
                         raise Unavailable("break/continue mixed with other exits in a loop that allocates")
                     body = self.exits_to_ret(body)
                     tag = ["$loop%d" % self.site]
